@@ -213,9 +213,6 @@ class TBDMAccumulator:
 
         down_start = [np.min(self._electrons[s]) for s in [0, 1]]
 
-        _, saved0 = list(
-            zip(*[wf.testvalue(e, configs.electron(e)) for e in range(nelec)])
-        )
         for sweep in range(self._nsweeps):
             fsum = [
                 gpu.cp.sum(gpu.cp.abs(aux["orbs"][spin][sweep]) ** 2, axis=1)
@@ -237,9 +234,9 @@ class TBDMAccumulator:
                 wfratio_a, saved_a = wf.testvalue(ea, epos_a)
                 wf.updateinternals(ea, epos_a, configs, saved_values=saved_a)
                 wfratio_b = wf.testvalue_many(electrons_b, epos_b)
-                wf.updateinternals(
-                    ea, configs.electron(ea), configs, saved_values=saved0[ea]
-                )
+                # move back without cached values: they were computed before electron ea was
+                # moved away, and some wave functions cache changes relative to the current state
+                wf.updateinternals(ea, configs.electron(ea), configs)
                 wfratio.append(wfratio_a[:, np.newaxis] * wfratio_b)
                 electrons_a_ind.extend([ea - down_start[0]] * len(electrons_b))
                 electrons_b_ind.extend(electrons_b - down_start[1])
